@@ -98,10 +98,11 @@ def gen_marker_call(rng):
     k = rng.random()
     if k < 0.25:
         pos = [rng.choice([0.0, 1.0, -2.5]), rng.choice([0.0, 0.5])] + ([rng.choice([0.0, 0.02])] if rng.random() < 0.6 else [])
-        call = ('cross', pos, rng.choice([None, 0.75, 2.0]), rng.choice([None, 0.125]))
+        call = ('cross', pos, rng.choice([None, 0.75, 2.0, 3]), rng.choice([None, 0.125, 1]))
     elif k < 0.45:
         ticks = [rng.choice([0.0, 0.1, 0.2, 0.5, -0.3, 1.0]) for _ in range(rng.randint(1, 6))]
-        call = ('ruler', ticks, rng.choice([None, 1.0, 2.0]), rng.choice([None, 0.5]), rng.choice([None, 0.0, -1.0, 0.25]))
+        # lengths also as python ints (a legitimate way to write 2 mm)
+        call = ('ruler', ticks, rng.choice([None, 1.0, 2.0, 2.5, 3]), rng.choice([None, 0.5, 2, 1]), rng.choice([None, 0.0, -1.0, 0.25, 1]))
     elif k < 0.65:
         p0 = [rng.choice([0.0, 1.0]), rng.choice([0.0, -0.5]), rng.choice([0.0, 0.01])]
         ext = rng.choice([0.0101, 0.0349, -0.0251, 0.0, 0.005])
